@@ -441,6 +441,7 @@ func run(r *report.Run, shard, nshards int, replayFile string) {
 		"every AddLicence, SaleQuorum and Register is also executed once per collaborator call (bank, account, feegrant keeper) with that call failing; " +
 		"oracle in every state, per denom: escrow == Σ unactivated licences paid in that denom, licence / client / account-kind / vesting-schedule (original vesting = the licensed coin) / funder-balance / fee-grant sets equal the ledger, " +
 		"stored sale contracts == the set the last proposal authorised; a sale from a chain / contract outside that set changes nothing; " +
+		"plus a scale + genesis pass outside the BFS (collections are exercised beyond the SDK's default page size, 100): N ∈ {1, 99, 100, 101, 250} pending licences created by signed txs; listing (keeper and gRPC query) returns all N and Σ == escrow; paloma ExportGenesis → JSON → Validate → InitGenesis reproduces the module store byte-identically and re-exports identically; licensees last in creation order and last in key order activate afterwards; " +
 		"a state is distinct by (paloma, bank, feegrant stores, canonical accounts, block time, ledger)"
 	r.Assumptions = []string{
 		"tx atomicity re-implemented as in baseapp.runTx (ante cache, msg cache, panic → tx error); fees are zero in this app (TxFeeSkipper), so the licensed address pays nothing and needs only the base account that licence creation gives it: Register/Auth are really signed txs by that address",
@@ -469,6 +470,8 @@ func run(r *report.Run, shard, nshards int, replayFile string) {
 		wrest += j.weight
 	}
 	e.cnt["activations_of_noncanonical_licence_by_signed_tx"] = 0
+	// scale + genesis pass (sizes spread over the worker processes)
+	e.scalePass(r, shard, nshards)
 	for _, j := range jobs {
 		spec := e.spec(j, shard, nshards)
 		// thorough: every search gets its weight's share of the time that is left when it starts
@@ -559,6 +562,14 @@ func (e *env) replay(r *report.Run, jobs []job, file string) {
 		}
 	}
 	name, _ := m["scenario"].(string)
+	if name == scaleScenario {
+		e.scalePass(r, 0, 1)
+		if len(r.Violations) == 0 {
+			fmt.Println("replay: no violation on this tree")
+		}
+		r.States, r.Transitions = 1, int64(len(scaleSizes))
+		return
+	}
 	parts := strings.SplitN(name, "#", 2)
 	for _, s := range e.scenarios() {
 		if s.name != parts[0] {
